@@ -175,6 +175,12 @@ def _json_reader_checks(self, ctx):
             nbad += 1
             bad.append({"text": t, "lim": 4300, "real": r, "model": o, "why": why or "library text not accepted", "stream": "library"})
     ctx["dist"]["json_reader_on_library_texts"] = {"texts": len(texts), "bytes": sum(len(t) for t in texts), "disagreements": nbad}
+    nf, fbad = json_diff.float_tokens(drv, rng, 60 if tier == "quick" else 1500)
+    ctx["dist"]["json_float_tokens"] = {"tokens": nf, "disagreements": len(fbad)}
+    for b in fbad[:2]:
+        fails.append({"case": {"op": "json_float_tok", "args": {"tok": b["tok"]}}, "observed": {"model": b["model"]},
+                      "required": {"documented_language": b["spec"], "printed_by_json_dumps": b["printed_by_json_dumps"]},
+                      "kind": "json-float-token-model-vs-cpython-disagreement"})
     for b in bad[:3]:
         fails.append({"case": {"op": "json_parse_ord", "args": {"text": b["text"][:4000], "lim": b["lim"]}},
                       "observed": {"model": b["model"], "why": b["why"], "stream": b["stream"]}, "required": {"cpython": b["real"]},
